@@ -38,29 +38,29 @@ type WSClient struct {
 	Sid string // non-empty: this connection is an upgrade candidate for Sid
 	Ex  *Exchange
 
-	inbuf      []byte
-	gotHTTP    bool
-	HTTPStatus int
-	HTTPHeader http.Header
-	Frames     []WSFrame
-	RecvFrames []Frame // reassembled data messages
-	Recv       []Pkt
-	RecvAt     []time.Duration
-	Msgs       []Pkt
-	Open       *OpenInfo
-	GotClose   bool
-	CloseCode  int
-	CloseText  string
-	EOF        bool // server closed the TCP connection
-	EOFAt      time.Duration
-	Errs       []string
-	Deflate    bool // negotiate permessage-deflate
-	negotiated bool
-	fragOp     byte
-	fragRSV1   bool
-	fragBuf    []byte
-	inFrag     bool
-	MaskKey    [4]byte
+	inbuf        []byte
+	gotHTTP      bool
+	HTTPStatus   int
+	HTTPHeader   http.Header
+	Frames       []WSFrame
+	RecvFrames   []Frame // reassembled data messages
+	Recv         []Pkt
+	RecvAt       []time.Duration
+	Msgs         []Pkt
+	Open         *OpenInfo
+	GotClose     bool
+	CloseCode    int
+	CloseText    string
+	EOF          bool // server closed the TCP connection
+	EOFAt        time.Duration
+	Errs         []string
+	Deflate      bool // negotiate permessage-deflate
+	negotiated   bool
+	fragOp       byte
+	fragRSV1     bool
+	fragBuf      []byte
+	inFrag       bool
+	MaskKey      [4]byte
 	OfferDeflate bool
 }
 
